@@ -13,3 +13,7 @@ extern int efunc_5(void); void *l1_addr_efunc_5(void){ return (void*)efunc_5; } 
 #ifdef EIFUNC_FROM_LIB
 extern int eifunc_6(void); void *l1_addr_eifunc_6(void){ return (void*)eifunc_6; } int l1_call_eifunc_6(void){ return eifunc_6(); }
 #endif
+int lalias_sw_7[16]; extern __typeof(lalias_sw_7) w_lalias_sw_7 __attribute__((weak, alias("lalias_sw_7")));
+void *addr_lalias_sw_7(void){ return (void*)w_lalias_sw_7; } int read_lalias_sw_7(void){ return w_lalias_sw_7[0]; } void write_lalias_sw_7(int v){ w_lalias_sw_7[0] = v; } void *waddr_lalias_sw_7(void){ return (void*)w_lalias_sw_7; }
+int lalias_ts_8[16]; extern __typeof(lalias_ts_8) t_lalias_ts_8 __attribute__((alias("lalias_ts_8")));
+void *addr_lalias_ts_8(void){ return (void*)lalias_ts_8; } int read_lalias_ts_8(void){ return lalias_ts_8[0]; } void write_lalias_ts_8(int v){ lalias_ts_8[0] = v; } void *waddr_lalias_ts_8(void){ return (void*)lalias_ts_8; }
